@@ -26,12 +26,17 @@ if ! (cd $VERIF_ROOT/harness && go build $RACE -o $B/vcheck ./cmd/vcheck ) > $B/
   # the harness links the repository's public packages: a change of their API shows up here
   echo "HARNESS-ERROR property=$ID cannot build the harness against the repository:"; cat $B/build.log; exit 3
 fi
+# the program itself under the race detector, for the checks that run reports side by side in one process
+HRRACE=
+case "$ID" in C02|C05|C13)
+  if (cd $VERIF_REPO/cmd/hranoprovod-cli && go build -race -tags verif -o $B/hr.race . ) > $B/buildrace.log 2>&1; then HRRACE=$B/hr.race; fi;;
+esac
 ALT=
 if [ "$TIER" = thorough ] && command -v go1.26.8 >/dev/null 2>&1; then
   if (cd $VERIF_REPO/cmd/hranoprovod-cli && go1.26.8 build -tags verif -o $B/hr126 . ) > $B/build126.log 2>&1; then ALT=$B/hr126; fi
 fi
 rm -rf $VERIF_ROOT/replay/$ID; mkdir -p $VERIF_ROOT/replay/$ID
-export VERIF_HR=$B/hr VERIF_HR_ALT=$ALT VERIF_WORK=$W VERIF_TIER=$TIER VERIF_SEED=${VERIF_SEED:-1}
+export VERIF_HR=$B/hr VERIF_HR_RACE=$HRRACE VERIF_HR_ALT=$ALT VERIF_WORK=$W VERIF_TIER=$TIER VERIF_SEED=${VERIF_SEED:-1}
 export GORACE="halt_on_error=0 exitcode=0 log_path=$W/race"
 cd $VERIF_ROOT
 $B/vcheck run $ID --tier $TIER
